@@ -1,6 +1,7 @@
 package main
 
 import (
+	"go/types"
 	"fmt"
 	"go/token"
 	"strings"
@@ -255,6 +256,38 @@ func checkDryRun(c *Ctx, rule string) {
 				}
 			}
 			c.Check(rule, "account-dry-run-always-rolls-back", cl.Pos(), !bad, "ImportAccountDryRun's transaction can commit")
+			// the dry run has cached the would-be account in the scoped manager; whatever happens after addresses are derived
+			// from it — success or failure — the cache entry must be dropped again, or the rolled-back account stays visible
+			// (and shadows the account a later real import creates under the same number)
+			isInval := func(cc *ssa.CallCommon) bool { return calleeShort(cc) == "InvalidateAccountCache" }
+			nIssue := 0
+			for _, ci := range callsOf(cl) {
+				n := calleeShort(ci.Common())
+				if n != "NextExternalAddresses" && n != "NextInternalAddresses" {
+					continue
+				}
+				nIssue++
+				covered := false
+				for _, b := range cl.Blocks {
+					for _, ins := range b.Instrs {
+						if d, ok := ins.(*ssa.Defer); ok && isInval(&d.Call) {
+							if (b == ci.Block() && instrIndex(d) < instrIndex(ci)) || (b != ci.Block() && b.Dominates(ci.Block())) {
+								covered = true
+							}
+						}
+					}
+				}
+				if !covered {
+					q := &PathQuery{Fn: cl, Barrier: func(i ssa.Instruction) bool {
+						call, ok := i.(*ssa.Call)
+						return ok && isInval(&call.Call)
+					}, Target: func(i ssa.Instruction, _ *ssa.BasicBlock) bool { _, ok := i.(*ssa.Return); return ok }}
+					covered = len(q.From(ci)) == 0
+				}
+				c.Check(rule, "account-dry-run-always-invalidates-cache:"+n, ci.Pos(), covered,
+					"ImportAccountDryRun can leave its transaction (on an error after "+n+") without invalidating the account cache entry the dry run created: the rolled-back account stays in memory")
+			}
+			c.Floor(rule, "address derivations in the account dry run", nIssue, 2)
 		}
 	}
 }
@@ -323,11 +356,48 @@ func checkRowRewrites(c *Ctx, rule string) {
 						detail = fmt.Sprintf("%s passes row field %s for parameter %s of %s", fn.Name(), f, pn, name)
 					}
 				}
+				if tn, f, _, okf := fieldOf(stripConv(arg)); okf && !strings.HasSuffix(tn, "AccountRow") && tn != "" {
+					// a value the row itself holds must be carried over from the row read in this database transaction, not
+					// from an in-memory mirror: the mirror lags the database between a commit and its OnCommit callback
+					for rf := range rowFieldsOf(cc) {
+						if sameFieldRole(rf, pn) {
+							ok = false
+							detail = fmt.Sprintf("%s re-persists %s of an account row from the in-memory %s.%s instead of the row it read in this transaction: between an address-issuing commit and its commit callback the mirror is stale, so the committed next index is overwritten with the old one and the same address is issued again after a restart", fn.Name(), pn, tn, f)
+						}
+					}
+				}
 				c.Check(rule, "row-rewrite-preserves:"+fn.Name()+"->"+name+"."+pn, cc.Pos(), ok, detail)
 			}
 		}
 	}
 	c.Floor(rule, "field arguments of account-row rewrites", n, 15)
+}
+
+// rowFieldsOf: names of all fields of the db*AccountRow struct types (incl. embedded) whose fields the call passes.
+func rowFieldsOf(cc *ssa.Call) map[string]bool {
+	out := map[string]bool{}
+	var add func(t types.Type, depth int)
+	add = func(t types.Type, depth int) {
+		if p, ok := t.Underlying().(*types.Pointer); ok {
+			t = p.Elem()
+		}
+		st, ok := t.Underlying().(*types.Struct)
+		if !ok || depth > 2 {
+			return
+		}
+		for i := 0; i < st.NumFields(); i++ {
+			out[st.Field(i).Name()] = true
+			if st.Field(i).Embedded() {
+				add(st.Field(i).Type(), depth+1)
+			}
+		}
+	}
+	for _, a := range cc.Call.Args {
+		if tn, _, base, ok := fieldOf(stripConv(a)); ok && strings.HasPrefix(tn, "db") && strings.HasSuffix(tn, "AccountRow") {
+			add(base.Type(), 0)
+		}
+	}
+	return out
 }
 
 func sameFieldRole(field, param string) bool {
